@@ -306,13 +306,21 @@ class ProgGen:
         aliases that refer to ONE mapping object (what a YAML anchor/alias loads as), each with a child of its own
         declared in that mapping: both subtrees are built and started."""
         rng = self.rng
+        faulty = any(sp["ctorFails"] or any(a["a"] in ("fail", "awaitFail") or a.get("fails") is not None
+                                            for ph in ("prepare", "start") for a in (sp[ph] or []))
+                     for sp in self.prog)
         for k in (1, 2):
             i = len(self.prog)
             self.prog.append({"path": f"tw/{k}", "parent": 0, "cls": i, "ctorFails": False, "dflt": str(k), "twin": "T",
                               "prepare": None, "start": [{"a": "tick", "d": rng.choice([0, 1])}], "children": [i + 1]})
             self.prog[0]["children"].append(i)
-            self.prog.append({"path": f"tw/{k}.lf", "parent": i, "cls": i + 1, "ctorFails": False, "dflt": "default",
-                              "twin": "TL", "prepare": None, "start": [{"a": "tick", "d": 0}], "children": []})
+            # the child's alias is the empty string (possible in a configuration only): its path is "tw/k." - and if
+            # nothing else fails in this start-up, the second one's start() does
+            leaf_start: list[dict[str, Any]] = [{"a": "tick", "d": 0}]
+            if k == 2 and not faulty and i % 2 == 0:
+                leaf_start.append({"a": "fail", "e": 0})
+            self.prog.append({"path": f"tw/{k}.", "parent": i, "cls": i + 1, "ctorFails": False, "dflt": "default",
+                              "twin": "TL", "prepare": None, "start": leaf_start, "children": []})
 
     def failfac(self) -> None:
         """A component is already waiting for a resource when a factory for it is registered whose call fails - with a
